@@ -272,13 +272,17 @@ class Exec:
             self.write_place(fr, st, t["dest"], ("adt", "Option", (0, "None"), (), True))
             return st, t["target"]
         # --- general case: loop-carried values become symbols, the body is evaluated once more
+        def lvname(k):
+            # frame-independent name of a loop-carried place
+            return pstr(k) if isinstance(k[0], str) else ".".join(["L%d" % k[0][2]] + [str(x) for x in k[1:]])
+
         s3 = st.fork()
         for k in changed:
-            s3.store.write(k, ("lv", loopid, pstr(k)))
+            s3.store.write(k, ("lv", loopid, lvname(k)))
         out2 = body(s3)
         from terms import subterms
         for k, old in changed.items():
-            lv = ("lv", loopid, pstr(k))
+            lv = ("lv", loopid, lvname(k))
             v = out2.store.m.get(k)
             if v is None:
                 v = self._try_read(out2, k)
@@ -292,7 +296,7 @@ class Exec:
                 ls = [l for _, l in leaves(v)]
                 others = [l for l in ls if l != lv]
                 if all(not any(x == lv for x in subterms(l)) for l in others):
-                    summ = ("pick", old, tuple(dict.fromkeys(others)), loopid)
+                    summ = ("pick", old, tuple(dict.fromkeys(others)), loopid, v)
             if summ is None:
                 summ = ("havoc", loopid, pstr(k))
             st.store.write(k, summ)
